@@ -320,6 +320,13 @@ pub enum Extra<T: Sc> {
         /// the callers really were interleaved (shuttle threads), not run one after another
         overlapped: bool,
     },
+    /// accessors of the retained `FitResult`, queried after the fit
+    ResultView {
+        nl_params: Vec<u64>,
+        coeffs: Option<DMatrix<T>>,
+        best_fit: Option<DMatrix<T>>,
+        best_fit_is_vector: bool,
+    },
     /// the op could not be applied (e.g. no problem left after a panic)
     Skipped,
 }
@@ -602,6 +609,21 @@ impl<T: Sc, F: Factory<T>> Runner<T, F> {
                     }
                 }
             },
+            Op::ResultView => {
+                let p = self.subject.as_ref().unwrap();
+                match guarded(|| p.result_view()) {
+                    Ok(Some((nl, coeffs, best_fit, best_fit_is_vector))) => {
+                        extra = Extra::ResultView {
+                            nl_params: vec_bits(&nl),
+                            coeffs,
+                            best_fit,
+                            best_fit_is_vector,
+                        }
+                    }
+                    Ok(None) => extra = Extra::Skipped,
+                    Err(e) => panic = Some(e),
+                }
+            }
             Op::ConcurrentQueries(k) => {
                 let p = self.subject.as_ref().unwrap();
                 let overlapped = self.ctl.overlap.load(std::sync::atomic::Ordering::SeqCst);
